@@ -26,7 +26,7 @@ def rowOpOfJson (j : Json) : P RowOp := do
   | "delete" => return .delete u
   | _ => throw s!"bad row op {op}"
 
-def idxValToJson (v : IdxVal) : Json := listToJson atomToJson v
+def idxValToJson (v : IdxVal) : Json := listToJson (fun o => match o with | some a => atomToJson a | none => Json.null) v
 
 def indexToJson (ix : Index) : Json :=
   listToJson (fun p => .arr #[idxValToJson p.1, listToJson Json.str p.2]) ix.m
